@@ -87,12 +87,21 @@ type call struct {
 	ty       int
 	tag      string
 	override bool
+	// form: 0 = the tag name as it is; 1 = the empty tag name (no field carries rules under it); 2 = a second tag name
+	// ("valid") passed after the first (the first one is the tag name of the call)
+	form int
 }
 
 func (cl call) String() string {
 	o := ""
 	if cl.override {
 		o = "+override(F)"
+	}
+	switch cl.form {
+	case 1:
+		return fmt.Sprintf("T%d/(empty tag name)%s", cl.ty+1, o)
+	case 2:
+		return fmt.Sprintf("T%d/%s,then valid%s", cl.ty+1, cl.tag, o)
 	}
 	return fmt.Sprintf("T%d/%s%s", cl.ty+1, cl.tag, o)
 }
@@ -108,7 +117,12 @@ func calls() []call {
 		}
 		for _, tag := range tags {
 			for _, ov := range []bool{false, true} {
-				out = append(out, call{ty, tag, ov})
+				out = append(out, call{ty: ty, tag: tag, override: ov})
+			}
+		}
+		if _, ok := values[ty].(*T6); ok {
+			for _, ov := range []bool{false, true} {
+				out = append(out, call{ty: ty, tag: "", override: ov, form: 1}, call{ty: ty, tag: "a", override: ov, form: 2})
 			}
 		}
 	}
@@ -121,13 +135,22 @@ func (cl call) run() error {
 		for k, v := range overrideRM {
 			rm[k] = v
 		}
+		if cl.form == 2 {
+			return valid.StructForFn(values[cl.ty], rm, cl.tag, "valid")
+		}
 		return valid.StructForFn(values[cl.ty], rm, cl.tag)
+	}
+	if cl.form == 2 {
+		return valid.ValidateStruct(values[cl.ty], cl.tag, "valid")
 	}
 	return valid.ValidateStruct(values[cl.ty], cl.tag)
 }
 
 func (cl call) model() string {
 	o := walk.Opts{Tag: cl.tag}
+	if cl.form == 1 {
+		o.Tag = "no-field-has-this-tag" // the empty tag name selects no rules
+	}
 	if cl.override {
 		o.Unscoped = overrideRM
 	}
